@@ -39,6 +39,9 @@ def shape_case(draw):
     else:
         k = draw(st.integers(r + 2, r + 9))
         Y = np.asarray(draw(gens.array((k, r), -3.0, 3.0, styles=("raw",)))).reshape(k, r)
+    # thin but unambiguous extents along some intrinsic axes (aspect ratios down to 1e-4): the affine dimension stays r
+    if r >= 2 and draw(st.booleans()):
+        Y = Y * np.asarray([draw(st.sampled_from([1.0, 1.0, 1e-1, 1e-2, 1e-3, 1e-4])) for _ in range(r)])
     # interior extras (do not change the hull)
     if draw(st.booleans()) and Y.shape[0] >= 2:
         W = np.asarray(draw(gens.array((2, Y.shape[0]), 0.1, 1.0, styles=("raw",)))).reshape(2, Y.shape[0])
@@ -78,7 +81,7 @@ def body_volume(case):
     sv = np.linalg.svd(Y - Y.mean(0), compute_uv=False)
     # compute_volume treats a cloud as a single point when np.allclose(X, X[0]) (relative tolerance 1e-5 of the coordinates):
     # clouds smaller than 1e-3 of their distance from the origin are outside the explored domain (DESIGN 8.6)
-    if vol is None or sv[min(r, len(sv)) - 1] < 1e-2 * sv[0] or vol < 1e-6 or sv[0] < 1e-3 * (1.0 + float(np.max(np.abs(X))) + float(np.max(np.abs(case["shift"])))):
+    if vol is None or sv[min(r, len(sv)) - 1] < 1e-6 * sv[0] or vol < 1e-30 or sv[0] < 1e-3 * (1.0 + float(np.max(np.abs(X))) + float(np.max(np.abs(case["shift"])))):
         return ["degenerate-shape-skipped"]
     X0 = X.copy()
     with calling("compute_volume"):
@@ -134,7 +137,7 @@ def body_width(case):
     if d < 2:
         return ["one-dimensional-skipped"]
     svals = np.linalg.svd(Y - Y.mean(0), compute_uv=False)
-    if svals[0] < 1e-6 or svals[min(r, len(svals)) - 1] < 1e-2 * svals[0]:
+    if svals[0] < 1e-6 or svals[min(r, len(svals)) - 1] < 1e-6 * svals[0]:
         return ["degenerate-shape-skipped"]
     n = 4000
     with calling("compute_mean_width"):
@@ -222,6 +225,13 @@ def body_gamut(case):
             g_sup = float(dreye.compute_gamut(X, metric=metric, seed=seed, relative_to=S))
             g_at = float(dreye.compute_gamut(X, metric=metric, seed=seed, relative_to=S, at_l1=at)) if at is not None else None
     check(g > 0, "gamut:positive", f"gamut {g}")
+    # the centring options only translate the chromatic coordinates: both metrics are translation invariant
+    with calling(f"compute_gamut(metric={metric}, centring options)"):
+        with np.errstate(all="ignore"):
+            g_ctn = float(dreye.compute_gamut(X, metric=metric, seed=seed, center_to_neutral=True))
+            g_nc = float(dreye.compute_gamut(X, metric=metric, seed=seed, center=False))
+    check(abs(g_ctn - g) <= 1e-9 * g and abs(g_nc - g) <= 1e-9 * g, "gamut:centring-option",
+          f"gamut changes with a centring option (a translation): {g} -> center_to_neutral {g_ctn}, center=False {g_nc}")
     check(abs(g_scaled - g) <= 1e-9 * g, "gamut:intensity-scale", f"gamut changes with the intensity scale of the input: {g} -> {g_scaled} (factor {case['lam']})")
     check(abs(g_rows - g) <= 1e-9 * g, "gamut:row-intensity", f"gamut changes when rows are rescaled individually (same chromaticities): {g} -> {g_rows}")
     check(abs(g_self - 1.0) <= 1e-9, "gamut:relative-to-itself", f"gamut relative to itself = {g_self}")
@@ -287,6 +297,23 @@ def body_est_gamut(case):
             g_rel = float(est.compute_gamut(relative=True, metric=case["metric"], seed=case["seed"]))
             g2 = float(est.compute_gamut(relative=False, metric=case["metric"], seed=case["seed"]))
     check(g_abs == g2, "est-gamut:not-deterministic", f"{g_abs} vs {g2}")
+    # the absolute (fraction=False) metric is the gamut metric of the captures of all bound corners; with at_l1 of their exact slice
+    import itertools
+    from props.c17_project import slice_candidates
+    dreye = _dreye()
+    A = np.asarray(est.A, dtype=float)
+    lbv, ubv = np.broadcast_to(np.asarray(est.lb, dtype=float), (A.shape[1],)), np.broadcast_to(np.asarray(est.ub, dtype=float), (A.shape[1],))
+    corners = np.array(list(itertools.product(*zip(lbv, ubv)))) @ A.T
+    sums = corners.sum(axis=1)
+    at = float(sums.min() + (0.25 + 0.5 * ((case["seed"] % 97) / 97.0)) * (sums.max() - sums.min()))
+    with calling("ReceptorEstimator.compute_hull(fraction=False)"):
+        with np.errstate(all="ignore"):
+            h_abs = float(est.compute_hull(fraction=False, relative=False, metric=case["metric"], seed=case["seed"]))
+            h_ref = float(dreye.compute_gamut(corners, metric=case["metric"], seed=case["seed"]))
+            h_at = float(est.compute_hull(fraction=False, relative=False, metric=case["metric"], seed=case["seed"], at_l1=at))
+            h_at_ref = float(dreye.compute_gamut(slice_candidates(corners, at), metric=case["metric"], seed=case["seed"]))
+    check(abs(h_abs - h_ref) <= 1e-7 * max(abs(h_ref), 1e-12), "est-gamut:absolute-metric", f"compute_hull(fraction=False) = {h_abs}, metric of the bound corners' captures = {h_ref}")
+    check(abs(h_at - h_at_ref) <= 1e-6 * max(abs(h_at_ref), 1e-12), "est-gamut:at-l1", f"compute_hull(at_l1={at:.4g}) = {h_at}, metric of the exact slice = {h_at_ref}")
     nf, ns = len(case["filters"]), len(case["sources"])
     dq = affine_dims(Qh)
     if case["metric"] == "volume" and not (dq[0] == dq[1] == nf - 1):
